@@ -16,4 +16,40 @@ import dtcheck  # noqa: E402
 
 
 def run(prop, tier, seed, replay):
-    return dtcheck.run('C18', tier, seed, replay)
+    import json
+    import io
+    import contextlib
+    import checklib
+    # a replay written by the executor-model leg (generic harness input) is replayed by that leg
+    if replay:
+        try:
+            rp = json.load(open(replay))
+        except Exception:
+            rp = {}
+        if 'executor model' in str(rp.get('leg', '')):
+            return checklib.generic_check('C18', tier, seed, replay, __import__('time').time(), [])
+    rc = dtcheck.run('C18', tier, seed, replay)
+    if rc != 0 or replay:
+        return rc
+    # additional leg: datetime methods through the executor model and the trace specification
+    log = []
+    ties, viol, seen, totals, rpath = checklib.extra_exec_leg('C18', tier, seed, log)
+    evp = os.path.join(os.path.dirname(os.path.dirname(os.path.abspath(__file__))), 'evidence', 'C18.json')
+    try:
+        ev = json.load(open(evp))
+        ev['coverage']['executor_model_leg'] = {'families': ['dt'], 'cases': totals.get('cases', 0), 'comparisons': totals.get('comparisons', 0),
+                                                 'spec_comparisons': totals.get('spec_comparisons', 0), 'model_vs_impl_disagreements': len(ties),
+                                                 'spec_vs_impl_unexplained': len(viol), 'log': log}
+        ev['coverage']['evaluations'] = ev['coverage'].get('evaluations', 0) + totals.get('comparisons', 0)
+        if ties or viol:
+            ev['violations'] = max(1, len(viol))
+        json.dump(ev, open(evp, 'w'), indent=1)
+    except Exception:
+        pass
+    if viol:
+        print('VIOLATION property=C18 replay=%s' % rpath)
+        return 1
+    if ties:
+        print('VIOLATION property=C18 replay=%s no-failing-input-found' % rpath)
+        return 1
+    return 0
